@@ -68,7 +68,12 @@ def stack_cases():
     in between, so forwards fail and succeed at different times; the reports travel to the originators. '''
     send = st.tuples(st.just('send'), st.sampled_from([1, 3, 3]), st.integers(0, 15), st.booleans()).map(list)
     cut = st.tuples(st.just('cut'), st.sampled_from([1, 2, 3])).map(list)
-    return st.fixed_dictionaries({'kind': st.just('stack'), 'ops': st.lists(st.one_of(send, send, cut), min_size=2, max_size=8)})
+    # sessions told to end while bundles with a forwarding report request are still on their way towards them
+    burst = st.tuples(st.lists(st.tuples(st.just('send'), st.sampled_from([1, 3]), st.sampled_from([2, 6, 10, 15]), st.just(False)).map(list),
+                               min_size=1, max_size=3),
+                      st.lists(cut, min_size=1, max_size=3)).map(lambda t: t[0] + t[1])
+    flat = st.lists(st.one_of(send.map(lambda x: [x]), send.map(lambda x: [x]), cut.map(lambda x: [x]), burst), min_size=2, max_size=6)
+    return st.fixed_dictionaries({'kind': st.just('stack'), 'ops': flat.map(lambda groups: [op for grp in groups for op in grp][:10])})
 
 
 def strategy(tier):
@@ -90,6 +95,8 @@ def enumerate_cases(tier):
 
 def pinned_cases():
     yield 'stack-reverse-route', {'kind': 'stack', 'ops': [['send', 1, 15, True], ['cut', 1], ['send', 3, 15, True], ['send', 1, 15, True]]}
+    yield 'stack-forward-onto-ending-session', {'kind': 'stack', 'ops': [['send', 1, 11, True], ['send', 3, 6, False], ['send', 1, 6, False],
+                                                                          ['cut', 2], ['cut', 2], ['cut', 1]]}
     yield 'fragmented-report', {'rpt_mtu': 100, 'history': [{'outcome': 'forward', 'mask': 31, 'rpt': 1, 'src': ['dtn', '//src/'],
                                                              'ts': [1000, 1], 'pcrc': 1, 'ycrc': 2, 'plen': 20, 'ext': [], 'other_flags': 0}]}
     yield 'forward-frag-all-flags', {'history': [{'outcome': 'forward-frag', 'mask': 31, 'rpt': 1, 'src': ['dtn', '//src/'],
@@ -297,6 +304,9 @@ def one(node, item, index, out, seen):
     outcome = item['outcome']
     wire = r.encode(bundle)
     ident = (tuple(bundle['primary']['src']), tuple(bundle['primary']['ts']))
+    if bundle['primary']['frag'] is not None:
+        # (a fragment is another bundle than the whole one of the same source and creation timestamp)
+        ident += (bundle['primary']['frag'][0], len(bundle['blocks'][-1]['data']) // 2)
     if ident in seen:
         # two items of a history happen to have the same identity: the second is a repeat, which the agent ignores
         # (C10); nothing about reports is to be judged for it
